@@ -318,6 +318,60 @@ func runC17(res *Result, tier string, seed int64, replay string) {
 			}
 		}
 	}
+	// ---- (1e) several offending attributes on ONE element whose names are related (one contained in the other: align /
+	// vertical-align, color / background-color, width / border-width …, a name and the same in upper case), with accepted
+	// attributes between them, in both orders: one detail per offending attribute, in the order written
+	if replay == "" {
+		for _, t := range bodyTags {
+			var bad []string
+			for _, a := range all {
+				if !specAccepted(t, a) && a != "" && !strings.ContainsAny(a, " \"<>=") {
+					bad = append(bad, a)
+				}
+			}
+			var pairs [][2]string
+			for _, a := range bad {
+				for _, b := range bad {
+					if a != b && strings.Contains(a, b) && len(pairs) < 24 {
+						pairs = append(pairs, [2]string{a, b})
+					}
+				}
+			}
+			var good string
+			for _, a := range allowedSorted(t) {
+				if v1, _ := testValues(a[0], a[1]); v1 != "" && a[0] != "mj-class" {
+					good = a[0] + `="` + xmlAttrEsc(v1) + `"`
+					break
+				}
+			}
+			for pi, pr := range pairs {
+				for oi, order := range [][2]string{{pr[0], pr[1]}, {pr[1], pr[0]}} {
+					at := order[0] + `="1" ` + good + ` ` + order[1] + `="2"`
+					src := legalContext(t, at, "")
+					if src == "" {
+						continue
+					}
+					_, err := renderPlain(src)
+					ds, isVal := detailsOf(err)
+					res.Case(fmt.Sprintf("related-names/%s/%d/%d", t, pi, oi), true)
+					if err != nil && !isVal {
+						continue
+					}
+					var mine []string
+					for _, d := range ds {
+						if d.tag == t && (d.attr == order[0] || d.attr == order[1]) {
+							mine = append(mine, d.attr)
+						}
+					}
+					if len(mine) != 2 || mine[0] != order[0] || mine[1] != order[1] {
+						res.Violate(Violation{Sig: fmt.Sprintf("details-not-exact|related-names|%s|%s|%s", t, order[0], order[1]), Kind: "cell",
+							What:  fmt.Sprintf("<%s> carries the offending attributes %s and %s (in this order, an accepted one between them): reported for them %v", t, order[0], order[1], mine),
+							Input: map[string]string{"source": src}})
+					}
+				}
+			}
+		}
+	}
 	// ---- (2) injected documents with line checks (sequential: heads differ)
 	n := 300
 	if tier == "thorough" {
